@@ -57,6 +57,11 @@ class Skip(Exception):
     """The generated case is outside the input domain (consistently refused)."""
 
 
+class HarnessProblem(Exception):
+    """Something the harness itself cannot do with this tree (API it relies on is gone,
+    a seam is no longer reached).  Reported as a harness error (exit 2), never as a violation."""
+
+
 def case_seed(base, cid, i):
     h = hashlib.sha256(('%d:%s:%d' % (int(base), cid, int(i))).encode()).digest()
     return int.from_bytes(h[:6], 'big')
@@ -121,6 +126,11 @@ def execute(prop, nranks, sched, tape, rank_fn, post_fn=None):
                        detail=simworld._jsonable(e.detail))
         except Skip as e:
             res.update(status='skip', kind='skip', message=str(e))
+        except HarnessProblem as e:
+            res.update(status='harness', kind='harness-api', message=str(e))
+        except (TypeError, AttributeError, KeyError, IndexError) as e:
+            # the oracle could not even read what the ranks returned: API drift, not a verdict
+            res.update(status='harness', kind='harness-api', message=repr(e), detail=traceback.format_exc()[-2000:])
     return _finish(res, w, results)
 
 
@@ -140,6 +150,10 @@ def _classify_exception(res, w):
         if e[0] == 'OracleFail':
             r0, e0 = r, e
             break
+    if e0[0] == 'HarnessProblem' or _harness_side(e0):
+        res.update(status='harness', kind='harness-api', message=('rank %d: %s: %s' % (r0, e0[0], e0[1]))[:1500],
+                   detail=dict(trace=e0[2][-2000:]))
+        return
     if e0[0] == 'OracleFail':
         # message is "(kind, detail)"
         kind = 'oracle'
@@ -154,6 +168,20 @@ def _classify_exception(res, w):
                    message=('rank %d: %s: %s' % (r0, e0[0], e0[1]))[:1800],
                    detail=dict(rank=r0, ranks=[r for r, _ in excs], trace=e0[2][-2500:],
                                pending=simworld._jsonable(getattr(w.error, 'detail', None))))
+
+
+def _harness_side(e):
+    """True when a TypeError/AttributeError/NotImplementedError was raised *inside* the simulated MPI,
+    the seams or the harness glue itself: the code under test used (or the harness relied on) an API
+    the harness does not model.  That is a limitation of the harness, not a property violation."""
+    if e[0] not in ('TypeError', 'AttributeError', 'NotImplementedError', 'ImportError', 'ModuleNotFoundError'):
+        return False
+    frames = [ln for ln in e[2].splitlines() if ln.strip().startswith('File "')]
+    if not frames:
+        return False
+    last = frames[-1]
+    return ('/sim/shim/' in last or '/sim/seams.py' in last or '/verif/checks/' in last or '/verif/refs/' in last
+            or '/sim/harness.py' in last)
 
 
 def _finish(res, w, results=None):
@@ -258,6 +286,9 @@ def _run_with_kinds(self, fn, join_timeout=30.0):
         except Skip as e:
             self.excs[r] = ('Skip', str(e), '')
             raise simworld.SimAbort()
+        except HarnessProblem as e:
+            self.excs[r] = ('HarnessProblem', str(e), traceback.format_exc())
+            raise simworld.SimAbort()
     return _orig_run(self, fn2, join_timeout)
 
 
@@ -323,6 +354,13 @@ def run_case(mod, case, tape=None):
 
 
 def _work(cid, tier, base_seed, indices, per_case_timeout):
+    try:
+        return _work_inner(cid, tier, base_seed, indices, per_case_timeout)
+    finally:
+        shutil.rmtree(scratch_root(), ignore_errors=True)
+
+
+def _work_inner(cid, tier, base_seed, indices, per_case_timeout):
     mod = load_check(cid)
     out = []
     for i in indices:
@@ -680,13 +718,13 @@ def summarise(mod, tier, base_seed, results, harness_errors, skipped_chunks, wal
         samples=samples,
         status_counts=status_counts,
         runs_per_hour=int(ev / wall * 3600) if wall > 0 else 0,
-        seeds_per_hour=int(ev / wall * 3600) if wall > 0 else 0,
+        seeds_per_hour=int(ev / wall * 3600) if wall > 0 else 0,   # one seed per run
         simulated_seconds=round(sim_total, 3),
         events_processed=sum(r['events'] for r in results),
         fault_firings=dict(sorted(faults.items())),
         reach_probes=dict(sorted(probes.items())),
         distinct_interleavings=len({r['order_digest'] for r in results}),
-        distinct_interleavings_measure='distinct SHA-256 of the global sequence of (rank, call kind, context, per-context sequence number, operation) over all processed simulator calls of a run',
+        distinct_interleavings_measure='distinct SHA-256 of the global sequence of (rank, call kind, context, per-context sequence number, operation) over all processed simulator calls of a run; this separates workloads as well as schedules, i.e. it counts distinct (workload, interleaving) pairs - cases of one batch have different workloads, so it is an upper bound on distinct interleavings of any one workload',
         inconclusive=status_counts.get('harness', 0),
         skipped_cases=status_counts.get('skip', 0),
         chunks_not_run_wall_cap=skipped_chunks,
@@ -710,6 +748,8 @@ def _hist(xs):
 def write_evidence(mod, tier, base_seed, cov, wall, nviol):
     if os.environ.get('VERIF_NO_EVIDENCE'):
         return
+    if os.environ.get('VERIF_COUNT') and not os.environ.get('VERIF_FORCE_EVIDENCE'):
+        return          # an ad-hoc --count run is not the registered tier: keep the committed evidence
     d = os.path.join(VERIF, 'evidence')
     os.makedirs(d, exist_ok=True)
     ev = dict(property_id=mod.ID, tier=tier, seed=int(base_seed), level='exploration',
